@@ -2,20 +2,16 @@ import Lc.Driver.Scenario
 import Lc.Driver.Oracle
 
 namespace Lc.Driver.ScenarioHandle
-open Lean Lc Lc.Driver Lc.Driver.Scenario Lc.Driver.Oracle Lc.Layers
+open Lean Lc Lc.Driver Lc.Driver.Scenario Lc.Driver.Oracle Lc.Layers Lc.Spec.World
 
-def oracleFor (prop : String) : Option (StepView → Verdict) :=
-  match prop with
-  | "C15" => some c15
-  | "C10" => some c10
-  | _ => none
+def jlist (j : Json) : List Json := match j with | .arr a => a.toList | _ => []
+
+def instOf (cfg : Config) (tree table : Json) (hostFs : Fs.Tree) : Inst :=
+  { cfg := cfg, fs := hostFs ++ getTree (jlist tree), mnts := getHost (jlist table) }
 
 /-- world reconstructed from an implementation observation (tree + table) -/
-def worldOfObs (tree table : Json) : World :=
-  { fs := getTree (match tree with | .arr a => a.toList | _ => []),
-    kt := let m := getHost (match table with | .arr a => a.toList | _ => [])
-          { mnts := m, nextId := (m.foldl (fun acc x => max acc x.id) 99) + 1,
-            nextMinor := 60 } }
+def worldOf (i : Inst) : World :=
+  { fs := i.fs, kt := { mnts := i.mnts, nextId := (i.mnts.foldl (fun acc x => max acc x.id) 99) + 1 } }
 
 def handle (op : String) (j : Json) : Option Json :=
   match op with
@@ -23,28 +19,54 @@ def handle (op : String) (j : Json) : Option Json :=
     let (outs, _) := runScenario j
     let model := obj [("steps", Json.arr outs.toArray)]
     let prop := getStr j "prop"
-    match oracleFor prop with
-    | none => some (obj [("model", model), ("holds", Json.bool true)])
-    | some orc =>
-      let cfg := getCfg (getObj j "cfg")
-      let w0 : World := { fs := getTree (getArr j "tree"), kt := { mnts := getHost (getArr j "host") } }
-      let implSteps := getArr (getObj j "impl") "steps"
-      let steps := getArr j "steps"
-      let init : Json × Json := (jTree w0.fs, jTable w0.kt)
-      let (verdicts, _) := (steps.zip implSteps).foldl (fun (acc : List Verdict × (Json × Json)) (p : Json × Json) =>
+    let known := ["C01", "C02", "C03", "C04", "C08", "C09", "C10", "C11", "C15", "C16"]
+    if !known.contains prop then some (obj [("model", model), ("holds", Json.bool true)]) else
+    let cfg := getCfg (getObj j "cfg")
+    let fs0 := getTree (getArr j "tree")
+    let hostFs := fs0.filter fun e => !Fs.under vb e.1
+    let w0 : World := { fs := fs0, kt := { mnts := getHost (getArr j "host") } }
+    let implSteps := getArr (getObj j "impl") "steps"
+    let steps := getArr j "steps"
+    let init : Json × Json × Option Json × String := (jTree w0.fs, jTable w0.kt, none, "")
+    let (verdicts, _) := (steps.zip implSteps).foldl
+      (fun (acc : List Verdict × (Json × Json × Option Json × String)) (p : Json × Json) =>
         let (st, ob) := p
-        let v : StepView := { step := st, preTree := acc.2.1, preTable := acc.2.2, post := ob, modelNoFault := Json.null }
-        let _ := cfg
-        (acc.1 ++ [orc v], (getObj ob "tree", getObj ob "table"))) ([], init)
-      let firstBad := verdicts.find? (fun v => !v.holds && v.finding.isNone)
-      let firstKnown := verdicts.find? (fun v => !v.holds && v.finding.isSome)
-      let tags := (verdicts.flatMap (·.tags)).eraseDups
-      let base := [("model", model), ("tags", Json.arr (tags.map Json.str).toArray)]
-      match firstBad, firstKnown with
-      | some v, _ => some (obj (base ++ [("holds", Json.bool false), ("why", Json.str v.why)]))
-      | none, some v => some (obj (base ++ [("holds", Json.bool false), ("why", Json.str v.why),
-                                            ("finding", Json.str (v.finding.getD ""))]))
-      | none, none => some (obj (base ++ [("holds", Json.bool true)]))
+        let (preT, preM, prevS, prevC) := acc.2
+        let pre := instOf cfg preT preM hostFs
+        let post := instOf cfg (getObj ob "tree") (getObj ob "table") hostFs
+        let users := getUsers (getArr st "users")
+        let v : StepView := { cfg := cfg, step := st, users := users, pre := pre, preTreeJ := preT,
+                              preTableJ := preM, post := post, postJ := ob, prevStep := prevS, prevCls := prevC }
+        let verdict := match prop with
+          | "C01" => c01 v
+          | "C02" => c02 v
+          | "C03" => c03 v
+          | "C04" => c04 v
+          | "C08" => c08 v
+          | "C09" => c09 v
+          | "C10" => c10 v
+          | "C15" => c15 v
+          | "C16" => c16 v
+          | "C11" =>
+            -- what the uninterrupted step writes, from the implementation's own pre-state
+            match getCmd st with
+            | some c =>
+              let (_, w2) := run cfg users c (worldOf pre)
+              c11 v (layerconfigs (jTree w2.fs))
+            | none => fine []
+          | _ => fine []
+        let verdict := if verdict.holds then verdict else { verdict with why := s!"step {acc.1.length}: " ++ verdict.why }
+        (acc.1 ++ [verdict], (getObj ob "tree", getObj ob "table", some st, getStr ob "cls")))
+      ([], init)
+    let firstBad := verdicts.find? (fun v => !v.holds && v.finding.isNone)
+    let firstKnown := verdicts.find? (fun v => !v.holds && v.finding.isSome)
+    let tags := (verdicts.flatMap (·.tags)).eraseDups
+    let base := [("model", model), ("tags", Json.arr (tags.map Json.str).toArray)]
+    match firstBad, firstKnown with
+    | some v, _ => some (obj (base ++ [("holds", Json.bool false), ("why", Json.str v.why)]))
+    | none, some v => some (obj (base ++ [("holds", Json.bool false), ("why", Json.str v.why),
+                                          ("finding", Json.str (v.finding.getD ""))]))
+    | none, none => some (obj (base ++ [("holds", Json.bool true)]))
   | _ => none
 
 end Lc.Driver.ScenarioHandle
